@@ -2,6 +2,7 @@ import MuduoVerif.Proofs.ConnFlow
 import MuduoVerif.Proofs.ConnRead
 import MuduoVerif.Proofs.ConnBlocks
 import MuduoVerif.Proofs.ConnProgress
+import MuduoVerif.Proofs.ConnSkelTie
 /-!
 # C01 — TCP payload is delivered complete, in order and exactly once, both directions
 
@@ -113,5 +114,28 @@ example :
     Fresh ({} : Conn) ∧ (reach {} ins).discarded = false ∧ (reach {} ins).wrote = [1, 2, 3, 4, 5, 6] ∧
     (reach {} ins).blocks = [(false, [1, 2, 3]), (true, [4, 5]), (false, [6])] := by
   refine ⟨fresh_default .epoll true true true _ _ [] [] [], ?_, ?_, ?_⟩ <;> decide
+
+/-- T1, statement order: in every `TcpConnection` member function the model implements (and in
+`Channel::handleEventWithGuard`) the source performs the same significant actions - state stores, channel
+operations, callbacks, hand-offs to the loop, member calls, system calls, buffer operations - in the same order
+and under the same nesting of the generated guards as `Model/Conn.lean` (`Model/ConnSkelDecl.lean`); re-extracted
+from /repo on every run (`Generated/ConnSkel.lean`), proved in `Proofs/ConnSkelTie.lean` -/
+theorem statement_order_tied :
+    Gen.ConnSkel.sendInLoop = ConnSkel.Decl.sendInLoop ∧
+    Gen.ConnSkel.shutdown = ConnSkel.Decl.shutdown ∧
+    Gen.ConnSkel.shutdownInLoop = ConnSkel.Decl.shutdownInLoop ∧
+    Gen.ConnSkel.forceClose = ConnSkel.Decl.forceClose ∧
+    Gen.ConnSkel.forceCloseWithDelay = ConnSkel.Decl.forceCloseWithDelay ∧
+    Gen.ConnSkel.forceCloseInLoop = ConnSkel.Decl.forceCloseInLoop ∧
+    Gen.ConnSkel.startReadInLoop = ConnSkel.Decl.startReadInLoop ∧
+    Gen.ConnSkel.stopReadInLoop = ConnSkel.Decl.stopReadInLoop ∧
+    Gen.ConnSkel.connectEstablished = ConnSkel.Decl.connectEstablished ∧
+    Gen.ConnSkel.connectDestroyed = ConnSkel.Decl.connectDestroyed ∧
+    Gen.ConnSkel.handleRead = ConnSkel.Decl.handleRead ∧
+    Gen.ConnSkel.handleWrite = ConnSkel.Decl.handleWrite ∧
+    Gen.ConnSkel.handleClose = ConnSkel.Decl.handleClose ∧
+    Gen.ConnSkel.handleError = ConnSkel.Decl.handleError ∧
+    Gen.ConnSkel.handleEventWithGuard = ConnSkel.Decl.handleEventWithGuard :=
+  ConnSkel.skeletons_agree
 
 end MuduoVerif.C01
